@@ -158,6 +158,23 @@ def check_case(case):
                 if sbml_view(richgen.rich_dump(m, bounds_digits=15)) != d0:
                     fails.append(f"{variant}: writing changed the original model")
                 try:
+                    # the same document read again after the first loaded model was edited in place: a loaded model is a value of its own, nothing
+                    # done to it shows in the next model read from the same file
+                    for obj in [m1] + list(m1.reactions)[:2] + list(m1.metabolites)[:2] + list(m1.genes)[:2] + list(m1.groups)[:1]:
+                        obj.notes["edited_after_load"] = "x"
+                        obj.annotation["edited_after_load"] = ["y"]
+                        for v in list(obj.annotation.values()):
+                            if isinstance(v, list):
+                                v.append("appended_after_load")
+                    kw = {} if frep == "default" else {"f_replace": {}}
+                    m1b = read_sbml_model(path, **kw)
+                    d1b = sbml_view(richgen.rich_dump(m1b, bounds_digits=15))
+                    if d1b != d0:
+                        fails.append(f"{variant}: the same file read again after the first loaded model was edited: {richgen.diff(d0, d1b)}")
+                    m1 = m1b
+                except Exception as e:
+                    fails.append(f"{variant}: reading the same file again failed with {type(e).__name__}: {str(e)[:200]}")
+                try:
                     _, m2 = roundtrip(m1, variant, td, frep)
                     d2 = sbml_view(richgen.rich_dump(m2, bounds_digits=15))
                     if d2 != d1:
